@@ -90,6 +90,29 @@ def run(ctx):
                 # future_dt definition
                 want_future = T.ITE(end_c, op("item", time, lv + n - 1) - op("item", time, lv + n - 2), curr_dt)
                 ctx.equiv("R20.2", "integrate[future_dt]", future_dt, want_future, L.loc, interp=it)
+                # the count of jitter-free steps restarts at a jitter: its next value must not depend on what was counted
+                # before, and the high-order stencil is re-enabled only once that count reaches the stencil width
+                cands = [(nm, c) for nm, c in L.carried.items() if c[1] is not None and c[1] != restart_c and c[1] != prev_c
+                         and c[0] == 0 and c[1] in T.to_term(L.carried["restart"][2]).free_symbols]
+                if len(cands) != 1:
+                    ctx.unsure("R20.2", "integrate[jitter restarts the count]", "no single step counter feeds the restart flag", L.loc)
+                else:
+                    cnm, (c0, csym, cfin) = cands[0]
+                    cfin = T.to_term(cfin)
+                    underJ = T.resimplify(T.assume(cfin, {J: True}))
+                    ctx.expect(csym not in underJ.free_symbols, "R20.2", "integrate[jitter restarts the count]",
+                               f"after a jittered step the number of constant steps counted so far (`{cnm}`) does not depend on the "
+                               "count before the jitter, so the high-order stencil cannot be re-enabled by steps that precede it",
+                               L.loc, derived=underJ)
+                    rfin = T.to_term(L.carried["restart"][2])
+                    reach = CMP("eq", T.resimplify(T.assume(cfin, {C: True})), op("len", primary))
+                    reach_s = [x for x in T.subterms(rfin) if fname(x) == "eq" and csym in x.free_symbols]
+                    okre = len(reach_s) >= 1 and all(T.equivalent(x, reach) == T.Verdict.EQUAL for x in reach_s)
+                    stays = T.resimplify(T.assume(rfin, {**{x: False for x in reach_s}, J: True})) if okre else None
+                    ctx.expect(okre and stays == TRUE_T, "R20.2", "integrate[high order needs a full stencil of constant steps]",
+                               "the restart flag is cleared only when the updated count equals the width of the requested stencil, "
+                               "and stays set on a jittered step otherwise", L.loc, derived=str([T.show(x, 80) for x in reach_s]),
+                               required=reach)
     ctx.equiv("R20.2", "integrate[curr_dt]", curr_dt, op("item", time, lv) - op("item", time, lv - 1), L.loc, interp=it)
     # R20.3 step shape
     inner = [x for x in it.loops if x.func == f.qualname and x is not L]
@@ -106,9 +129,135 @@ def run(ctx):
             "loopsum", op("item", S, jj - js) * op("item", signal, lv + jj), jj, op("range", js, nimp)))
         ctx.equiv("R20.3", "integrate[step]", fin, ref, L.loc,
                   "out[i] == out[i-1] + curr_dt * sum_j stencil[j-jstart]*signal[i+j]", interp=it)
+    align = None
+    if len(inner) == 1 and len(arrs) == 1:
+        # node of the stencil that multiplies signal[i] on the high-order branch: -jstart with the primary width / n
+        align = T.resimplify(T.assume(-js, {C: False})) if fname(S) == "ite" else None
+    stencil_definition_rules(ctx, p, align, order, n)
     envres.check_ext_used(ctx, it, "R20.4", "integrate")
     ctx.absorb(it)
     ctx.notes.extend(it.unknown_notes[:5])
     ctx.require_count("R20.1", 1)
-    ctx.require_count("R20.2", 8)
+    ctx.require_count("R20.2", 10)
     ctx.require_count("R20.3", 1)
+    ctx.require_count("R20.5", 11)
+
+
+def stencil_definition_rules(ctx, p, align, order, n):
+    """R20.5: the weight generator is the textbook construction - Lagrange basis polynomials on unit-spaced nodes, term-wise
+    antiderivative, difference of the antiderivative over the one step [m-1, m] whose end nodes are the samples i-1 and i of
+    `integrate`.  Exactness for polynomials below the order and weights summing to one are theorems about that construction
+    (Lagrange interpolation reproduces such polynomials); the rule decides that the code is that construction."""
+    R = "R20.5"
+    idx, poly, x = P("base_polynomial_index"), P("poly"), P("x")
+    # -- integration_stencil
+    f = p.get_function(TI + "integration_stencil")
+    it = Interp(p, opaque={TI + "integrated_lagrange_base_polynomial_coef": "ilag", TI + "evaluate_polynomial": "evalpoly"})
+    r = T.to_term(it.call_function(f, [order, n], {}, None))
+    if fname(r) != "tabulate":
+        ctx.unsure(R, "integration_stencil", "weights are not filled by one loop", f.loc(), derived=r)
+    else:
+        base, pat, val, lv = r.args[:4]
+        rng = r.args[4] if len(r.args) > 4 else None
+        ctx.expect(base == op("zeros", order) and pat == lv and rng in (op("range", sp.Integer(0), order), op("range", order)), R,
+                   "integration_stencil[one weight per node]", "`order` weights, weight k computed in iteration k, all k in 0..order-1",
+                   f.loc(), derived=sp.Tuple(base, pat, rng))
+        ev = T.find_ops(val, "evalpoly")
+        ok = len(ev) == 2
+        hi = lo = None
+        if ok:
+            a, b = ev
+            if val == b - a:
+                a, b = b, a
+            ok = val == a - b and a.args[0] == b.args[0] == op("ilag", order, lv)
+            hi, lo = a.args[1], b.args[1]
+        ctx.expect(ok, R, "integration_stencil[antiderivative difference]",
+                   "weight k == I_k(hi) - I_k(lo) with I_k the integrated k-th basis polynomial of that order", f.loc(), derived=val)
+        if ok:
+            ctx.expect(sp.expand(hi - lo - 1) == 0, R, "integration_stencil[one step]", "the interval is one node spacing long",
+                       f.loc(), derived=sp.Tuple(lo, hi))
+            if align is None:
+                ctx.unsure(R, "integration_stencil[interval matches integrate]", "sample alignment of `integrate` not derived", f.loc())
+            else:
+                al = align.xreplace({op("len", op("stencil", order, n)): order})
+                ctx.expect(sp.expand(hi - al) == 0, R, "integration_stencil[interval matches integrate]",
+                           "the interval ends at the node that `integrate` multiplies with signal[i] (node width - n on the "
+                           "high-order branch) and starts at the node of signal[i-1]", f.loc(), derived=sp.Tuple(lo, hi), required=al)
+    ctx.absorb(it)
+    # -- evaluate_polynomial
+    f = p.get_function(TI + "evaluate_polynomial")
+    it = Interp(p)
+    r = T.to_term(it.call_function(f, [poly, x], {}, None))
+    ls = T.find_ops(r, "loopsum")
+    ok = len(ls) == 1 and r == ls[0]
+    if ok:
+        X, lv, rng = ls[0].args[:3]
+        deg = op("len", poly) - 1
+        ok = sp.expand(X - op("item", poly, lv) * x**(deg - lv)) == 0 and T.equivalent(rng, op("range", sp.Integer(0), deg + 1)) == T.Verdict.EQUAL
+    ctx.expect(ok, R, "evaluate_polynomial", "sum_k poly[k]*x^(deg-k) over all deg+1 coefficients (highest power first)", f.loc(), derived=r)
+    ctx.absorb(it)
+    # -- integrated basis polynomial
+    f = p.get_function(TI + "integrated_lagrange_base_polynomial_coef")
+    it = Interp(p, opaque={TI + "lagrange_base_polynomial_coef": "lag"})
+    r = T.to_term(it.call_function(f, [order, idx], {}, None))
+    if fname(r) != "tabulate":
+        ctx.unsure(R, "integrated_lagrange_base_polynomial_coef", "coefficients are not rescaled by one loop", f.loc(), derived=r)
+    else:
+        base, pat, val, lv = r.args[:4]
+        rng = r.args[4] if len(r.args) > 4 else None
+        want_base = op("store", op("zeros", order + 1), op("slc", sp.Integer(0), order, T.NONE_T), op("lag", order - 1, idx))
+        ctx.expect(base == want_base, R, "integrated_lagrange_base_polynomial_coef[coefficients]",
+                   "starts from the degree order-1 basis polynomial shifted up one power (constant of integration 0)", f.loc(), derived=base)
+        cur = [t for t in T.find_ops(val, "item") if t.args[1] == lv]
+        ok = pat == lv and len(cur) == 1 and sp.expand(val * (order - lv) - cur[0]) == 0 \
+            and fname(cur[0].args[0]) == "loopstate" and cur[0].args[0].args[0] == base
+        ctx.expect(ok, R, "integrated_lagrange_base_polynomial_coef[term-wise antiderivative]",
+                   "coefficient k (of x^(order-1-k)) is divided by order-k", f.loc(), derived=val)
+        okr = rng in (op("range", order - 1), op("range", order), op("range", sp.Integer(0), order - 1), op("range", sp.Integer(0), order))
+        ctx.expect(okr, R, "integrated_lagrange_base_polynomial_coef[all powers]",
+                   "every coefficient with a divisor other than one is rescaled (k = 0..order-2)", f.loc(), derived=rng)
+    ctx.absorb(it)
+    # -- basis polynomial: product of (x - k)/(index - k) over the other nodes
+    f = p.get_function(TI + "lagrange_base_polynomial_coef")
+    it = Interp(p)
+    r = T.to_term(it.call_function(f, [order, idx], {}, None))
+    Ls = [L for L in it.loops if L.func == f.qualname]
+    if len(Ls) != 1:
+        ctx.unsure(R, "lagrange_base_polynomial_coef", "expected one loop over the nodes", f.loc())
+    else:
+        L = Ls[0]
+        lv = L.lv
+        skip = CMP("eq", idx, lv)
+        ctx.expect(T.equivalent(L.iter, op("range", sp.Integer(0), order + 1)) == T.Verdict.EQUAL, R,
+                   "lagrange_base_polynomial_coef[nodes]", "the product runs over the nodes 0..order", f.loc(), derived=L.iter)
+        dens = [(nm, c) for nm, c in L.carried.items() if c[0] == 1 and c[1] is not None]
+        cnts = [(nm, c) for nm, c in L.carried.items() if c[0] == 0 and c[1] is not None]
+        polys = [(nm, c) for nm, c in L.carried.items() if T.to_term(c[0]) == op("store", op("zeros", order + 1), sp.Integer(0), sp.Integer(1))]
+        if len(dens) != 1 or len(cnts) != 1 or len(polys) != 1:
+            ctx.unsure(R, "lagrange_base_polynomial_coef[state]", "denominator / degree counter / coefficient array not identified",
+                       f.loc(), derived=str(sorted(L.carried)))
+        else:
+            (_, (_, dsym, dfin)), (_, (_, jsym, jfin)), (_, (_, psym, pfin)) = dens[0], cnts[0], polys[0]
+            ctx.equiv(R, "lagrange_base_polynomial_coef[denominator]", dfin, T.ITE(skip, dsym, dsym * (idx - lv)), f.loc(),
+                      "denominator == product over the other nodes k of (index - k)", interp=it)
+            ctx.equiv(R, "lagrange_base_polynomial_coef[degree]", jfin, T.ITE(skip, jsym, jsym + 1), f.loc(),
+                      "the degree grows by one per factor and the own node is skipped", interp=it)
+            pf = T.to_term(pfin)
+            taken = T.resimplify(T.assume(pf, {skip: False}))
+            kept = T.resimplify(T.assume(pf, {skip: True}))
+            okp = kept == psym and fname(taken) == "store" and taken.args[0] == psym
+            if okp:
+                sl, newv = taken.args[1], taken.args[2]
+                # after the increment the degree is d = j+1: new[1..d] = old[1..d] - k*old[0..d-1]
+                up = op("slc", sp.Integer(1), jsym + 2, T.NONE_T)
+                lowr = op("slc", sp.Integer(0), jsym + 1, T.NONE_T)
+                okp = sl == up and sp.expand(newv - (op("item", psym, up) - lv * op("item", psym, lowr))) == 0
+            ctx.expect(okp, R, "lagrange_base_polynomial_coef[multiply by (x - k)]",
+                       "coefficients c[1..d] become c[1..d] - k*c[0..d-1] (d the new degree), i.e. the polynomial is multiplied by (x - k); "
+                       "untouched for the own node", f.loc(), derived=T.show(taken, 200))
+            num, den = r.as_numer_denom()
+            okres = fname(num) == "tabulate" and num.args[0] == T.to_term(polys[0][1][0]) and fname(den) == "loopfix" \
+                and den.args[0] == 1 and T.equivalent(den.args[1], T.to_term(dfin).xreplace({dsym: den.args[3]})) == T.Verdict.EQUAL
+            ctx.expect(okres, R, "lagrange_base_polynomial_coef[result]", "returns the coefficient array divided by the denominator",
+                       f.loc(), derived=T.show(r, 160))
+    ctx.absorb(it)
